@@ -72,7 +72,11 @@ class Molecules:
                 rot = Rotation.identity()
         elif not isinstance(rot, Rotation):
             raise TypeError(f"`rot` must be a Rotation object, got {type(rot)}.")
-        elif nmol > 0 and nmol != len(rot):
+        elif rot.single:
+            # a single rotation (e.g. made from a 1D quaternion or rotation vector) describes
+            # one molecule
+            rot = Rotation.from_quat(np.atleast_2d(rot.as_quat()))
+        if nmol > 0 and nmol != len(rot):
             raise ValueError(
                 f"Length mismatch. There are {nmol} molecules but {len(rot)} "
                 "rotation were given."
